@@ -17,7 +17,7 @@ RULE = ("models from three sources: (a) read from generated Hy source over every
         "if an independent printer + the reader reproduce them, (c) every top-level form and distinct "
         "compound sub-form of the repository's own *.hy files. Non-trivial = the model contains an "
         "f-string, a bracket string or a sugar form; distinct by rendered case.")
-FLOOR = {"quick": 2000, "thorough": 2000}
+FLOOR = {"quick": 800, "thorough": 2000}
 BUDGET = {"quick": 18, "thorough": 480}
 CASE_TIMEOUT = 20
 NEEDS_EVENTS = True
